@@ -57,6 +57,16 @@ def check(ctx):
                "min_start: no constraint of another task (e.g. the min_start of an enclosing group) is added to it", floor=1)
     ctx.guarded(o, lambda o: release_bound(ctx, o, ps, pt))
 
+    o = ctx.ob('fill_from_found_start', 'R8',
+               "the booking step of a leaf starts from the task's start (the date the search found, or the fixed start): a task "
+               "without remaining work gets that very date back as its end, so only then is its end its start day's timestamp", floor=1)
+    ctx.guarded(o, lambda o: fill_from_found_start(ctx, o, ps))
+
+    o = ctx.ob('no_work_means_no_booking', 'R8',
+               "a leaf whose estimate / spent the user gave (0 included) is booked for exactly that: the defaults replace only a value "
+               "that `is None` (a leaf with an explicit estimate of 0 has no work: it ends at its start and takes no capacity)", floor=1)
+    ctx.guarded(o, lambda o: explicit_zero_kept(ctx, o, ps))
+
     o = ctx.ob('traversal_order', 'R8',
                "roots are scheduled in list order, dependencies then children in list order: no reversed/sorted/set wrapper in the "
                "forward traversal (capacity is handed out in WBS order)", floor=3)
@@ -72,6 +82,7 @@ def check(ctx):
     from . import c17 as _c17b
     _c17b._leaf_semantics(ctx)
     _c17b._none_zero(ctx)
+    rounded_capacity_is_not_decided(ctx)
 
     from .c03 import ledger_shape
     o = ctx.ob('ledger_day_key', 'R10',
@@ -94,6 +105,22 @@ def check(ctx):
                "predecessors reached through a dependency link are scheduled with the project start as bound, not with the bound of "
                "the visiting task (which would delay unrelated tasks)")
     ctx.guarded(o, lambda o: sched_fill.jump_bound(ctx, o, ps, pt))
+
+
+def rounded_capacity_is_not_decided(ctx):
+    """C17's none_is_zero demands that the resource hands on the calendar's value unchanged.  A resource that reports
+    `round(<calendar value>, n)` breaks that clause of C17 (and C03: more than the calendar offers can be booked), but tightness /
+    late-packing and the date fractions are measured against what the resource reports (`resource.get_available_units` is the
+    observation point of C08 / C09): whether the property means the calendar's or the resource's figure is not decided here."""
+    for ob_ in ctx.obligations:
+        if ob_.id.endswith('none_is_zero'):
+            moved = [f_ for f_ in ob_.refuted if 'expected the calendar value' in f_.msg and 'reports `round(' in f_.msg]
+            if moved:
+                ob_.refuted = [f_ for f_ in ob_.refuted if f_ not in moved]
+                for f_ in moved:
+                    f_.msg += (" [a rounded capacity is C17's / C03's finding; tightness and the date fractions are measured against the "
+                               "resource's own report, so for this property it is not decided]")
+                ob_.unknown.extend(moved)
 
 
 WRAPPERS = ('reversed', 'sorted', 'set', 'frozenset')
@@ -285,6 +312,105 @@ def search_from_release(ctx, o, S):
                                             f"release date and that day are never examined for this task, so free capacity before it stays idle")
     if not bad:
         o.site(f, f.node, f"search day {', '.join(sorted(dvars))} is derived from the release date and the calendar only")
+
+
+def fill_from_found_start(ctx, o, ps: PassShape):
+    """the (expanded) start argument of the fill call is `max(.., task.start, ..)` / task.start / the value just stored to task.start.
+    A local with several definitions is judged definition by definition: one that is the RELEASE date handed to the search (and
+    not the date the search returned) is refuted - the bookings of a task with work are the same (the days in between are full),
+    but a task without work gets the raw release timestamp as its end instead of its start."""
+    fill = ctx.prog.func(ps.S['fill'])
+    search = ctx.prog.func(ps.S['search'])
+    stop = {f"{ps.task}.start"}
+    stored = []
+    for st, tgt, val, reg in ps.stores('start'):
+        if reg['milestone'] is not True:
+            stored.append(ps.ex.expand(val, ps.cfg.node_of(st), stop=stop))
+    # release dates: the date argument of the search calls
+    released = []
+    for sc in facts.calls_named(ps.f, search.name):
+        if len(sc.args) >= 3:
+            released.append(sc.args[2])
+            released.append(ps.ex.expand(sc.args[2], ps.cfg.node_containing(sc), stop=stop))
+
+    def good(a):
+        return match(f"{ps.task}.start", a) is not None or any(same(a, sv) for sv in stored)
+
+    for c in facts.calls_named(ps.f, fill.name):
+        if len(c.args) < 5:
+            o.undecided(ps.f, c, c, "unexpected argument list of the fill call")
+            continue
+        cn = ps.cfg.node_containing(c)
+        v = ps.ex.expand(c.args[2], cn, stop=stop)
+        for conds, case in sched.expr_cases(v):
+            args = facts.flatten_lattice(case, 'max') or [case]
+            if any(good(a) for a in args):
+                o.site(ps.f, c, f"fill starts at {src(case)[:60]}")
+                continue
+            # the max spelled as a conditional: `X` in the case `start < X` (`b = task.start; if b < now: b = now`)
+            as_max = False
+            for t, pol in conds:
+                if isinstance(t, ast.Compare) and len(t.ops) == 1 and isinstance(t.ops[0], (ast.Lt, ast.LtE, ast.Gt, ast.GtE)):
+                    lo, hi = (t.left, t.comparators[0]) if isinstance(t.ops[0], (ast.Lt, ast.LtE)) else (t.comparators[0], t.left)
+                    if not pol:
+                        lo, hi = hi, lo
+                    if good(lo) and any(same(hi, a) for a in args):
+                        as_max = True
+            if as_max:
+                o.site(ps.f, c, f"fill starts at {src(case)[:60]} where that is later than the task's start")
+                continue
+            multi = [a for a in args if isinstance(a, ast.Name) and a.id not in ps.f.params and len(ps.fl.reaching(a.id, cn)) > 1]
+            bad = unk = None
+            all_ok = bool(multi)
+            for a in multi[:1]:
+                for d_ in ps.fl.reaching(a.id, cn):
+                    if d_.kind != 'assign' or d_.value is None or d_.node is None:
+                        unk = d_
+                        continue
+                    tg_ = d_.stmt.targets if isinstance(d_.stmt, ast.Assign) else []
+                    if any(match(f"{ps.task}.start", t_) for t_ in tg_):
+                        continue            # `task.start = local = <value>`: the local IS the start just stored
+                    dv = ps.ex.expand(d_.value, d_.node, stop=stop)
+                    da = facts.flatten_lattice(dv, 'max') or [dv]
+                    if any(good(x) for x in da):
+                        continue
+                    if any(same(d_.value, r) or same(dv, r) for r in released) or \
+                            any(isinstance(r, ast.Name) and r.id == a.id for r in released):
+                        bad = (a, d_, dv)
+                    else:
+                        unk = d_
+            if bad is not None:
+                a, d_, dv = bad
+                o.refute(ps.f, c, d_.stmt, f"work is booked from `{src(case)[:60]}`, where `{a.id}` is the release date `{src(dv)[:70]}` that was handed to the "
+                                           f"availability search, not the start the search found: a task without remaining work gets the raw release "
+                                           f"timestamp as its end (before its start when the release day is full or closed) instead of its start")
+            elif multi and unk is None:
+                o.site(ps.f, c, f"fill starts at {src(case)[:60]} (every definition of {multi[0].id} is the task's start)")
+            elif multi or sched_fill._unresolved(ps.f, case):
+                o.undecided(ps.f, c, c.args[2], f"work is booked from `{src(case)[:70]}`, which contains a term the rule cannot resolve")
+            elif any(same(x, r) for x in args for r in released) or any(same(case, r) for r in released):
+                o.refute(ps.f, c, c.args[2], f"work is booked from `{src(case)[:80]}`, the release date handed to the availability search, not from the "
+                                             f"start the search found: a task without remaining work gets the raw release timestamp as its end")
+            else:
+                o.undecided(ps.f, c, c.args[2], f"work is booked from `{src(case)[:70]}`, in which the task's start was not recognised")
+
+
+def explicit_zero_kept(ctx, o, ps: PassShape):
+    """C04's remaining-work rule is run on a scratch obligation; of its findings only the recognised wrong shape 'default applied
+    under a condition other than `is None`' (`estimate or default`, a truth test) is C08's business: the phantom work of a task
+    that has none moves its end off its start and pushes every later task of the resource.  Everything else stays C04's."""
+    from sa.report import Obligation
+    from .c04 import remaining
+    tmp = Obligation(o.prop, o.id, o.rule, o.desc)
+    remaining(ctx, tmp, ps)
+    # (the default of `spent` is 0 itself: `spent or 0` changes nothing; what else can go wrong with it is C04's clause)
+    mine = [f_ for f_ in tmp.refuted if 'an explicit 0 would be replaced' in f_.msg and 'the default estimate' in f_.msg]
+    for f_ in mine:
+        f_.msg += ": a leaf that has no work is booked for the default amount, so its end is not its start and the tasks after it are pushed later"
+        o.refuted.append(f_)
+        o.sites.append(f"{f_.where} {f_.func or ''} REFUTED".strip())
+    if not mine:
+        o.site(ps.f, ps.f.node, "no default of a leaf is applied under a condition other than `is None` (remaining-work shape: C04)")
 
 
 def release_bound(ctx, o, ps: PassShape, pt):
